@@ -69,6 +69,8 @@ pub fn try_answer_left_neighbor<Node>(
         },
     };
 
+    #[cfg(feature = "verif-hooks")]
+    crate::verif::yield_point(23);
     // We send the left side information it needs to deduce the nodes to use next.
     // A modified node could be used as a node by the left worker, or we provide a new
     // high range to let the left worker use new fresh nodes
@@ -168,6 +170,8 @@ pub fn request_range_extension<Node>(
     worker_params: &mut WorkerParams<Node>,
     nodes_tracker: &mut NodesTracker<Node>,
 ) {
+    #[cfg(feature = "verif-hooks")]
+    crate::verif::yield_point(22);
     // UNWRAP: we should only be requesting a range extension when we have a right neighbor.
     // workers with no right neighbor have no limit to their range.
     let right_neighbor = worker_params.right_neighbor.as_ref().unwrap();
